@@ -165,6 +165,8 @@ type c07Op struct {
 	Phase string `json:"phase,omitempty"`
 	// delete
 	Tombstone bool `json:"tombstone,omitempty"`
+	// restart (C19, zz_verif_c19_test.go): informer delivery order / duplicates
+	Variant int `json:"variant,omitempty"`
 }
 
 // ---- environment + real cache -------------------------------------------------------------------------------
@@ -542,6 +544,8 @@ func (w *c07World) apply(o *c07Op) (vu.Ev, bool) {
 		}
 		w.cache.onPodAdd(p)
 		w.api[o.Pod] = p
+	case "restart": // C19: the scheduler restarts (zz_verif_c19_test.go)
+		return w.c19Restart(o), true
 	default:
 		panic("c07: unknown op " + o.Op)
 	}
@@ -834,6 +838,9 @@ func (g *c07Gen) next() c07Op {
 	}
 }
 
+// set by the C19 driver only: random histories are cut by restarts (C07's own histories contain none)
+var c07Restarts bool
+
 // one random segment: ops are drawn against the live environment and executed immediately
 func c07Random(rec *vu.Recorder, rng *rand.Rand, length int, thorough bool, stats map[string]int) {
 	g := &c07Gen{rng: rng, w: c07NewWorld(), thorough: thorough}
@@ -848,7 +855,13 @@ func c07Random(rec *vu.Recorder, rng *rand.Rand, length int, thorough bool, stat
 	}
 	rec.Reset(nil)
 	for n := 0; n < length; n++ {
-		o := g.next()
+		var o c07Op
+		if c07Restarts && n > 0 && rng.Intn(10) == 0 {
+			// C19: the scheduler restarts; the history goes on against the rebuilt cache
+			o = c07Op{Op: "restart", Variant: rng.Intn(1 << 20)}
+		} else {
+			o = g.next()
+		}
 		var ev vu.Ev
 		var ok bool
 		panicked, msg := vu.Protect(func() { ev, ok = g.w.apply(&o) })
